@@ -53,7 +53,8 @@ func c03Sequential(r *core.Run) {
 		// a third of the histories each run with gonuts' CLN / LND adapter and a fake node between the mint
 		// and the model; there some invoices lapse unpaid (status "expired" / CANCELED)
 		backend := map[int]string{2: "cln", 1: "lnd"}[h%3]
-		env, err := menv.New(world, "m0", core.TempDir("c03s"), menv.Opts{Backend: backend})
+		mpp := h%2 == 0 // every other history: a mint that offers multi-path melts (NUT-15)
+		env, err := menv.New(world, "m0", core.TempDir("c03s"), menv.Opts{Backend: backend, MPP: mpp})
 		if err != nil {
 			r.Violate("setup", err.Error(), sig, nil)
 			return
@@ -68,6 +69,12 @@ func c03Sequential(r *core.Run) {
 					return
 				}
 			}
+			if kind == "accepted" && op == "meltquote" && reason == "internal-settlement-for-less-than-mint-quote" {
+				// a melt quote that will settle one of the mint's own quotes for less than its amount: that
+				// quote then issues more than was paid for it
+				r.Violate("seq:meltquote-accepted:"+reason, detail, sig, s.Tail(12))
+				return
+			}
 			if kind == "rejected" && op == "mint" {
 				// a paid, unissued quote with well-formed outputs must be mintable (also after refused attempts)
 				r.Violate("seq:paid-quote-not-mintable", "MintTokens refused a paid, unissued quote: "+detail, sig, s.Tail(12))
@@ -79,7 +86,7 @@ func c03Sequential(r *core.Run) {
 			nt := op == "mint"
 			r.Eval(fmt.Sprintf("%s/op%d", sig, s.NOps), nt)
 		}
-		cfg := sim.GenCfg{Adversarial: true, Restart: true, Internal: true, Fees: []uint{0}}
+		cfg := sim.GenCfg{Adversarial: true, Restart: true, Internal: true, Fees: []uint{0}, MPP: mpp}
 		// directed floor: three open quotes; the middle one is paid and its notification delivered. Once
 		// its watcher has written PAID, the stored state of the older and of the younger quote must still
 		// be UNPAID (a watcher that listens to another invoice of the node moves the wrong quote), and
